@@ -163,6 +163,8 @@ def obs_space(kind):
         return spaces.Dict({"p": spaces.Box(-1e5, 1e5, (2,), np.float32), "q": spaces.Box(-1e5, 1e5, (3,), np.float32)})
     if kind == "tuple":
         return spaces.Tuple((spaces.Box(-1e5, 1e5, (2,), np.float32), spaces.Box(-1e5, 1e5, (3,), np.float32)))
+    if kind == "image":
+        return spaces.Box(0, 1e5, (1, 3, 3), np.float32)
     raise ValueError(kind)
 
 
@@ -173,6 +175,8 @@ def act_space(kind):
         return spaces.Box(-1e5, 1e5, (1,), np.float32)
     if kind == "discrete":
         return spaces.Discrete(5)
+    if kind == "multidisc":
+        return spaces.MultiDiscrete([7, 7])
     raise ValueError(kind)
 
 
@@ -181,6 +185,8 @@ def mk_obs(kind, x0s):
     x = np.asarray(x0s, dtype=np.float32)
     if kind == "vector":
         return np.stack([x, x + 0.25, x + 0.5], axis=-1)
+    if kind == "image":
+        return np.broadcast_to(x[..., None, None, None], x.shape + (1, 3, 3)).copy()
     p, q = np.stack([x, x + 0.25], axis=-1), np.stack([x + 0.5, x, x], axis=-1)
     return (p, q) if kind == "tuple" else {"p": p, "q": q}
 
@@ -191,10 +197,15 @@ def mk_act(kind, tags):
         return np.stack([x, x], axis=-1).astype(np.float32)
     if kind == "box1":
         return x.astype(np.float32)[..., None]
+    if kind == "multidisc":
+        return np.stack([x, x], axis=-1).astype(np.int64)
     return x.astype(np.int64)
 
 
 def dec_obs(kind, o, n):
+    if kind == "image":
+        m = np.asarray(o, dtype=np.float64).reshape(n, -1)
+        return [int(r[0]) if (r.shape[0] == 9 and np.all(r == r[0]) and float(r[0]).is_integer()) else BAD for r in m]
     if kind == "vector":
         m = np.asarray(o, dtype=np.float64).reshape(n, -1)
         return [int(r[0]) if (r.shape[0] == 3 and r[1] == r[0] + 0.25 and r[2] == r[0] + 0.5 and float(r[0]).is_integer()) else BAD for r in m]
@@ -311,6 +322,25 @@ class C17(vlib.Driver):
             c["ts"] = 128 if max(nA) > 8 else 64
             if INDEPENDENT_DICT_ORDERS and rng.random() < 0.3:
                 c["dict_orders"] = [rng.sample(c["ids"], len(c["ids"])) for _ in range(8)]
+        if not vec and rng.random() < 0.5:
+            c["variant"] = "pyfloat"
+        elif vec and algo == "ppo" and rng.random() < 0.2:
+            c["variant"] = "torch"
+        return c
+
+    def with_epochs(self, rng, c):
+        """run the real epoch / minibatch loop on this case: scripted shuffles, batch_size mostly not dividing the rows"""
+        if c["act"] in ("discrete", "multidisc"):          # the body re-evaluates the stored actions: tags are not valid categories
+            c["act"] = rng.choice(["box2", "box1"])
+        Ns = [c["T"] * g["A"] * c["E"] for g in c["groups"]]
+        if min(Ns) < 2:
+            return c
+        N0 = Ns[0]
+        cand = [b for b in range(2, N0 + 1) if N0 % b] or [2]
+        Bs = rng.choice(cand + [N0, 2, 3])
+        U = rng.choice([2, 2, 3])
+        c["epochs"] = {"B": Bs, "U": U, "perms": [[rng.sample(range(n), n) for _ in range(U)] for n in Ns]}
+        c["leak_seed"] = None
         return c
 
     def generate(self, tier, rng):
@@ -327,8 +357,12 @@ class C17(vlib.Driver):
         # (b) every small shape once (alignment depends on T, A, E only)
         for T, E in itertools.product(range(1, 5), range(1, 4)):
             cases.append(self.mk_case(rng, "ppo", T, E, [self.rand_group(rng, T, 1, E, True)]))
+            if (T + E) % 2:
+                self.with_epochs(rng, cases[-1])
         for T, A, E in itertools.product(range(1, 4), range(1, 4), range(1, 4)):
             cases.append(self.mk_case(rng, "ippo", T, E, [self.rand_group(rng, T, A, E, True)]))
+            if (T + A + E) % 2:
+                self.with_epochs(rng, cases[-1])
         # (b2) many agents sharing one policy: "agent_10" sorts before "agent_2"
         for A in ([11] if quick else [11, 12, 13]):
             for T in (1, 2):
@@ -344,9 +378,11 @@ class C17(vlib.Driver):
             vec = rng.random() < 0.8
             E = rng.choice([1, 2, 3, 4]) if vec else 1
             cases.append(self.mk_case(rng, "ppo", T, E, [self.rand_group(rng, T, 1, E, exact, p_done=rng.choice([0.15, 0.3, 0.6]))],
-                                      vec=vec, exact=exact, obs=rng.choice(["vector", "vector", "dict", "tuple"]),
-                                      act=rng.choice(["box2", "box1", "discrete"]), net=rng.choice(["plain", "partial"]),
+                                      vec=vec, exact=exact, obs=rng.choice(["vector", "vector", "dict", "tuple", "image"]),
+                                      act=rng.choice(["box2", "box1", "discrete", "multidisc"]), net=rng.choice(["plain", "partial"]),
                                       share=rng.random() < 0.3))
+            if rng.random() < 0.35:
+                self.with_epochs(rng, cases[-1])
         for _ in range(n_ippo):
             T = rng.choice([1, 2, 2, 3, 3, 4, 5, 6]); exact = rng.random() < 0.6
             if not exact:
@@ -357,8 +393,10 @@ class C17(vlib.Driver):
             if rng.random() < 0.3:
                 groups.append(self.rand_group(rng, T, rng.choice([1, 2]), E, exact))
             cases.append(self.mk_case(rng, "ippo", T, E, groups, vec=vec, exact=exact,
-                                      obs=rng.choice(["vector", "vector", "dict", "tuple"]),
-                                      act=rng.choice(["box2", "box1", "discrete"]), net=rng.choice(["plain", "partial"])))
+                                      obs=rng.choice(["vector", "vector", "dict", "tuple", "image"]),
+                                      act=rng.choice(["box2", "box1", "discrete", "multidisc"]), net=rng.choice(["plain", "partial"])))
+            if rng.random() < 0.35:
+                self.with_epochs(rng, cases[-1])
         # (d) the training loops with scripted episode ends: which flags reach learn()
         for _ in range(24 if quick else 200):
             ma = rng.random() < 0.5
@@ -380,6 +418,8 @@ class C17(vlib.Driver):
         nc = NC_PLAIN if case["net"] == "plain" else NC_PARTIAL
         if case["obs"] in ("dict", "tuple"):        # multi-input encoder: only the head is configured
             nc = {"head_config": {"hidden_size": [4]}} if case["net"] == "plain" else None
+        if case["obs"] == "image":                  # convolutional encoder (rank-5 rollout tensors)
+            nc = {"encoder_config": {"channel_size": [4], "kernel_size": [2], "stride_size": [1]}}
         nc = copy.deepcopy(nc)
         if case["algo"] == "ppo":
             ag = PPO(obs_space(case["obs"]), act_space(case["act"]), net_config=nc, share_encoders=case["share"],
@@ -435,6 +475,13 @@ class C17(vlib.Driver):
             nd = np.asarray(g["nd"][a], dtype=np.int8)
             if not vec and case["algo"] == "ppo":
                 nd = nd[0]
+            if case.get("variant") == "pyfloat" and not vec:        # plain envs return Python numbers
+                rw = [float(x) for x in rw]
+                if case["algo"] == "ppo":
+                    dn = [float(x) for x in dn]
+            if case.get("variant") == "torch" and case["algo"] == "ppo":   # stack_experiences' torch.Tensor branch
+                lp = [torch.as_tensor(np.asarray(x)) for x in lp]
+                vl = [torch.as_tensor(np.asarray(x)) for x in vl]
             return st, ac, lp, rw, dn, vl, ns, nd
         if case["algo"] == "ppo":
             return per_agent(0, data[0])
@@ -451,8 +498,13 @@ class C17(vlib.Driver):
     def learn_capture(self, case, data):
         ag, ids = self.agent_for(case)
         ag.gamma, ag.gae_lambda = case["gamma"], case["lam"]
-        ag.batch_size, ag.update_epochs = 1, 1          # one-row minibatches: the optimisation body is skipped
+        ep = case.get("epochs")
+        # default: one-row minibatches, the optimisation body is skipped.  "epochs" cases run the real epoch / minibatch
+        # loop (scripted non-identity shuffles, batch_size not dividing the row count, several epochs) with the
+        # optimizer steps switched off, so the networks stay what they are
+        ag.batch_size, ag.update_epochs = (ep["B"], ep["U"]) if ep else (1, 1)
         mod = ppo_mod if case["algo"] == "ppo" else ippo_mod
+        opts = [ag.optimizer] if case["algo"] == "ppo" else list(ag.actor_optimizers) + list(ag.critic_optimizers)
         for gi in range(len(data)):
             pin_critic(self.critic_of(ag, case, gi), case["bias"])
         nvs = [[[self.read_back(ag, case, gi, x) for x in row] for row in g["nv"]] for gi, g in enumerate(data)]
@@ -462,10 +514,68 @@ class C17(vlib.Driver):
         def wrapper(idx, *exps):
             out = orig(idx, *exps)
             if not caps or caps[-1]["exps"][3] is not exps[3]:
-                caps.append({"exps": exps, "mini": []})
+                caps.append({"exps": exps, "mini": [], "body": []})
             caps[-1]["mini"].append((np.asarray(idx).tolist(), out))
             return out
         mod.get_experiences_samples = wrapper
+
+        # what the minibatch body works on: the tensors that enter evaluate_actions (PPO) / preprocess_observation (IPPO)
+        # and the locals of learn() next to them (skipped silently if a local has another name)
+        def body_record(states, actions, fl):
+            if not caps or "minibatch_idxs" not in fl:
+                return
+            idx = np.asarray(fl["minibatch_idxs"]).tolist()
+            n = len(idx)
+            rec = {"idx": idx, "obs": dec_obs(case["obs"], states, n)}
+            acts = actions if actions is not None else fl.get("batch_actions")
+            rec["act"] = dec_flat(acts.detach(), n) if acts is not None else None
+            for key, name, f in (("lp", "batch_log_probs", dec_flat), ("adv", "batch_advantages", dec_num),
+                                 ("ret", "batch_returns", dec_num), ("val", "batch_values", dec_num)):
+                x = fl.get(name)
+                try:
+                    rec[key] = f(x.detach(), n) if x is not None else None
+                except Exception:
+                    rec[key] = "undecodable"
+            caps[-1]["body"].append(rec)
+
+        shuffles = {"n": 0, "bad": 0}
+        orig_shuffle = np.random.shuffle
+        orig_eval = getattr(ag, "evaluate_actions", None)
+        orig_pre = getattr(mod, "preprocess_observation", None)
+        if ep:
+            U = ep["U"]
+
+            def fake_shuffle(arr):
+                c = shuffles["n"]; shuffles["n"] += 1
+                try:
+                    perm = ep["perms"][c // U][c % U]
+                    assert len(perm) == len(arr)
+                    arr[:] = arr[np.asarray(perm)]
+                except Exception:
+                    shuffles["bad"] += 1
+                    orig_shuffle(arr)
+            np.random.shuffle = fake_shuffle
+            for o in opts:
+                o.step = lambda *a, **k: None
+            if case["algo"] == "ppo" and orig_eval is not None:
+                def eval_wrapper(*a, **k):
+                    try:
+                        body_record(k.get("obs", a[0] if a else None), k.get("actions", a[1] if len(a) > 1 else None),
+                                    sys._getframe(1).f_locals)
+                    except Exception:
+                        pass
+                    return orig_eval(*a, **k)
+                ag.evaluate_actions = eval_wrapper
+            elif orig_pre is not None:
+                def pre_wrapper(*a, **k):
+                    try:
+                        fl = sys._getframe(1).f_locals
+                        if "minibatch_idxs" in fl:
+                            body_record(a[0] if a else k.get("observation"), None, fl)
+                    except Exception:
+                        pass
+                    return orig_pre(*a, **k)
+                mod.preprocess_observation = pre_wrapper
         err = None
         try:
             ag.learn(self.experiences(case, ids, data))
@@ -473,6 +583,14 @@ class C17(vlib.Driver):
             err = f"{type(e).__name__}: {str(e)[:300]}"
         finally:
             mod.get_experiences_samples = orig
+            np.random.shuffle = orig_shuffle
+            if ep:
+                for o in opts:
+                    o.__dict__.pop("step", None)
+                if case["algo"] == "ppo":
+                    ag.__dict__.pop("evaluate_actions", None)
+                elif orig_pre is not None:
+                    mod.preprocess_observation = orig_pre
         if getattr(mod, "get_experiences_samples", None) is not orig:
             raise RuntimeError("could not restore get_experiences_samples")
         groups = []
@@ -494,10 +612,15 @@ class C17(vlib.Driver):
                 got = [list(r) for r in dec(out)] if len(idx) else []
                 if got != [rows[i] for i in idx]:
                     mini_bad += 1
-            groups.append({"n": n, "rows": rows, "minibatches": len(cp["mini"]), "minibatch_mismatch": mini_bad})
+            g_obs = {"n": n, "rows": rows, "minibatches": len(cp["mini"]), "minibatch_mismatch": mini_bad}
+            if ep:
+                g_obs["minis"] = [idx for idx, _ in cp["mini"]]
+                g_obs["body"] = cp["body"]
+            groups.append(g_obs)
         # the float32 arithmetic of learn() is exact only if the critic could be pinned to small dyadic values
         dyadic = all(float(v * 8).is_integer() and abs(v) <= 64 for g in nvs for row in g for v in row)
-        return {"error": err, "groups": groups, "nv": nvs, "exact": bool(case["exact"] and dyadic)}
+        return {"error": err, "groups": groups, "nv": nvs, "exact": bool(case["exact"] and dyadic),
+                "shuffle_calls": shuffles["n"], "shuffle_bad": shuffles["bad"]}
 
     def run_loop(self, case):
         """one generation of the real training loop on a scripted env; learn() is wrapped to record what it is handed"""
@@ -636,6 +759,11 @@ class C17(vlib.Driver):
                 q3 = lambda x: "[" + "; ".join(qm(m) for m in x) + "]"
                 terms.append(f"check_ippo_s {case.get('ts', 64)} {'true' if pinned else 'false'} {gr['A']} {E} {T} {g} {l} {q3(gr['R'])} {q3(gr['V'])} "
                              f"{q3(gr['D'])} {qm(nv)} {qm(gr['nd'])} {tol} {rows(ob['rows'])}")
+            ep = case.get("epochs")
+            if ep and obs.get("shuffle_calls") == ep["U"] * len(case["groups"]) and not obs.get("shuffle_bad"):
+                nl = lambda xs: "[" + "; ".join(str(int(x)) for x in xs) + "]"
+                nn = lambda m: "[" + "; ".join(nl(r) for r in m) + "]"
+                terms.append(f"check_minis {ob['n']} {ep['B']} {nn(ep['perms'][gi])}%nat {nn(ob['minis'])}%nat")
         return "(" + " && ".join(f"({t})" for t in terms) + ")%bool"
 
     # ---------- oracle: the property stated directly on what learn() handed to its minibatch loop
@@ -742,6 +870,42 @@ class C17(vlib.Driver):
             if ob["minibatch_mismatch"]:
                 out.append(Violation("rows-aligned", f"{algo}:minibatch-rows",
                                      f"{where}: {ob['minibatch_mismatch']} minibatches do not hold the rows at their indices"))
+            ep = case.get("epochs")
+            if ep and not (bad_tags or bad_val or bad_adv or bad_ret):
+                N, Bs, U = ob["n"], ep["B"], ep["U"]
+                per = -(-N // Bs)
+                minis = ob.get("minis", [])
+                # every epoch hands each row to exactly one minibatch; each old log-prob / estimate / value in a minibatch
+                # sits next to the observation and action of its own row
+                cov = []
+                for k in range(0, len(minis), per):
+                    flat = sorted(i for mb in minis[k:k + per] for i in mb)
+                    if flat != list(range(N)) or any(len(mb) > Bs or not mb for mb in minis[k:k + per]):
+                        cov.append((k // per, minis[k:k + per]))
+                if len(minis) != U * per or cov:
+                    out.append(Violation("minibatch-coverage", f"{algo}:minibatch-coverage",
+                                         f"{where}: batch_size={Bs} update_epochs={U} rows={N}: {len(minis)} minibatches (expected {U * per}); "
+                                         f"epochs whose minibatches are not a partition of the rows: {cov[:2]}"))
+                bad_body = []
+                for bi, b in enumerate(ob.get("body", [])):
+                    for j, i in enumerate(b["idx"]):
+                        if i >= len(rows):
+                            bad_body.append((bi, j, "index out of range")); continue
+                        want = rows[i]
+                        got = [b["obs"][j], b["act"][j] if b["act"] else None, b["lp"][j] if isinstance(b["lp"], list) else None,
+                               b["adv"][j] if isinstance(b["adv"], list) else None, b["ret"][j] if isinstance(b["ret"], list) else None,
+                               b["val"][j] if isinstance(b["val"], list) else None]
+                        if any(x == "undecodable" for x in (b["lp"], b["adv"], b["ret"], b["val"])) or \
+                                any(g_ is not None and g_ != w for g_, w in zip(got, want)):
+                            bad_body.append((bi, j, got, want))
+                if bad_body:
+                    out.append(Violation("rows-aligned", f"{algo}:minibatch-body-rows",
+                                         f"{where}: batch_size={Bs}: inside the minibatch body the tensors (obs, action, old log-prob, advantage, return, "
+                                         f"value) are not those of the minibatch's rows (minibatch, position, got, row): {bad_body[:4]}"))
+                n_body = sum(1 for mb in minis if len(mb) > 1)
+                if ob.get("body") is not None and len(ob["body"]) not in (0, n_body):
+                    out.append(Violation("rows-aligned", f"{algo}:minibatch-body-count",
+                                         f"{where}: {len(ob['body'])} minibatch bodies observed for {n_body} minibatches of more than one row"))
         # no-leak
         lk = obs.get("leak")
         if lk is not None and not out:
@@ -806,6 +970,17 @@ class C17(vlib.Driver):
             labs.append("next_done=1")
         if obs.get("leak"):
             labs.append("no-leak-second-run")
+        if case.get("epochs"):
+            ep = case["epochs"]
+            N0 = case["T"] * A * case["E"]
+            labs += ["epochs-mode", f"update_epochs={ep['U']}",
+                     "batch_size-divides-rows" if N0 % ep["B"] == 0 else "batch_size-does-not-divide-rows"]
+            if N0 % ep["B"] == 1:
+                labs.append("last-minibatch-has-one-row")
+            if any(g.get("body") for g in obs.get("groups", [])):
+                labs.append("minibatch-body-observed")
+        if case.get("variant"):
+            labs.append(f"variant={case['variant']}")
         if obs["error"] is not None:
             labs.append("learn-raised")
         if A >= 2 and case["T"] >= 2:
